@@ -229,7 +229,7 @@ def qd_once(ctx):
     if not js:
         out.append(undecided('QD-once', 'JobState::take', 'anchor not found'))
     else:
-        sw = [t for bb, t in js.calls() if (t['func'].get('fn') or '') == 'core::mem::swap']
+        sw = [t for bb, t in js.calls() if (t['func'].get('fn') or '') in ('core::mem::swap', 'core::mem::replace', 'core::mem::take')]
         comp = any(s['k'] == 'assign' and s['rv']['k'] == 'agg' and s['rv'].get('variant') == 'Completed' for b in js.blocks for s in b['stmts'])
         if sw and comp:
             out.append(ok('QD-once', 'JobState::take', 'state swapped to Completed when the future is taken', fn=js.name))
